@@ -1720,7 +1720,11 @@ func (c *Conn) handleUnpackedLongHeaderPacket(
 		}
 	}
 
-	c.lastPacketReceivedTime = rcvTime
+	// Packets that were queued until their keys became available are processed with the time they arrived:
+	// the idle timeout must not move backwards.
+	if rcvTime.After(c.lastPacketReceivedTime) {
+		c.lastPacketReceivedTime = rcvTime
+	}
 	c.firstAckElicitingPacketAfterIdleSentTime = 0
 	c.keepAlivePingSent = false
 
@@ -1770,7 +1774,11 @@ func (c *Conn) handleUnpackedShortHeaderPacket(
 	rcvTime monotime.Time,
 	log func([]qlog.Frame),
 ) (isNonProbing bool, pathChallenge *wire.PathChallengeFrame, _ error) {
-	c.lastPacketReceivedTime = rcvTime
+	// Packets that were queued until their keys became available are processed with the time they arrived:
+	// the idle timeout must not move backwards.
+	if rcvTime.After(c.lastPacketReceivedTime) {
+		c.lastPacketReceivedTime = rcvTime
+	}
 	c.firstAckElicitingPacketAfterIdleSentTime = 0
 	c.keepAlivePingSent = false
 
@@ -2130,7 +2138,7 @@ func (c *Conn) handleHandshakeDoneFrame(rcvTime monotime.Time) error {
 }
 
 func (c *Conn) handleAckFrame(frame *wire.AckFrame, encLevel protocol.EncryptionLevel, rcvTime monotime.Time) error {
-	acked1RTTPacket, err := c.sentPacketHandler.ReceivedAck(frame, encLevel, c.lastPacketReceivedTime)
+	acked1RTTPacket, err := c.sentPacketHandler.ReceivedAck(frame, encLevel, rcvTime)
 	if err != nil {
 		return err
 	}
